@@ -36,6 +36,7 @@ def ctl_at(log, t):
 
 class Converge(Sub):
     name = "converge"
+    shrink_budget = 150
     budget = {"quick": 4000, "thorough": 60000}
     rule = ("UTMITranslator + ULPI PHY BFM with a register file: event lists of control-input changes (aimed at "
             "pending / in-flight register writes, change-and-revert, both registers together, same cycle as a "
